@@ -429,7 +429,7 @@ def main(check, argv=None):
                 fut = ex.submit(_worker_chunk, first_tasks[0])
                 out = fut.result(timeout=wall_cap)
                 for seed, dg in out["digests"]:
-                    if digests.get(seed) != dg:
+                    if seed in digests and digests[seed] != dg:
                         harness.append(
                             (seed, None, "nondeterminism: seed %d digests %s vs"
                              " %s" % (seed, digests.get(seed), dg)))
